@@ -103,15 +103,20 @@ func (eng *Engine) RunLemmaFile(path, prop string) (*LemmaResult, error) {
 func (eng *Engine) runLemma(file string, d *lemmaDef) (qs []*Query, trusted []string, steps int, err error) {
 	x := &Exec{eng: eng, decls: map[string]string{}, maxPaths: 64, oblPrefix: "lemma." + file + "." + d.name,
 		inlined: map[string]bool{}, reached: map[string]bool{}, lemmaMode: true}
+	curCall := "" // the contract being applied when an error occurs
 	defer func() {
 		qs = x.queries
 		trusted = setList(x.trusted)
 		if r := recover(); r != nil {
+			at := ""
+			if curCall != "" {
+				at = "call " + curCall + ": "
+			}
 			switch v := r.(type) {
 			case unsupported:
-				err = fmt.Errorf("%s", v.msg)
+				err = fmt.Errorf("%s%s", at, v.msg)
 			case specErr:
-				err = fmt.Errorf("%s", v.msg)
+				err = fmt.Errorf("%s%s", at, v.msg)
 			default:
 				panic(r)
 			}
@@ -232,6 +237,7 @@ func (eng *Engine) runLemma(file string, d *lemmaDef) (qs []*Query, trusted []st
 				fail("cannot parse call %q", text)
 			}
 			key := strings.TrimSpace(text[:open])
+			curCall = key
 			var args []Val
 			var argTs []types.Type
 			argText := strings.TrimSpace(text[open+1 : op])
